@@ -623,7 +623,7 @@ Definition wf_iq (reg : registry) (i : iq) : bool :=
   && match i_any i with
      | None => true
      | Some (Node ns l _ _ _ as n) =>
-         wf_node [] n && negb (registered reg 2 ns l) && negb (str_eqb l s_error && isempty ns)
+         wf_node [] n && negb (registered reg 2 ns l) && negb (str_eqb l s_error && str_eqb ns [])
      end.
 
 Definition fits64 (n : N) : bool := n <? 2 ^ 64.
